@@ -101,11 +101,12 @@ func (c *Ctx) Pick(q, t int) int {
 
 // K is the handle of one case.
 type K struct {
-	c      *Ctx
-	Index  int
-	Rng    *rand.Rand
-	Case   any // set by the body as soon as the case is known: it is what a violation / sample reports
-	failed bool
+	c          *Ctx
+	Index      int
+	Rng        *rand.Rand
+	Case       any // set by the body as soon as the case is known: it is what a violation / sample reports
+	failed     bool
+	wantSample bool
 }
 
 func caseSeed(seed int64, prop string, idx int) int64 {
@@ -140,6 +141,10 @@ func (c *Ctx) Case(body func(k *K)) {
 		}()
 		body(k)
 	}()
+	// samples are taken after the body so that the case description is complete; every shard writes out at least one case
+	if (k.wantSample || len(c.rep.Samples) == 0) && len(c.rep.Samples) < 2 && k.Case != nil {
+		c.rep.Samples = append(c.rep.Samples, map[string]any{"index": k.Index, "case": jsonSafe(k.Case)})
+	}
 }
 
 // Skip advances the case index by n without running anything (cheap way to keep indices aligned).
@@ -169,11 +174,7 @@ func (k *K) Add(set string, format string, a ...any) {
 }
 
 // Sample keeps the case as one of the written-out samples (a few per shard).
-func (k *K) Sample() {
-	if len(k.c.rep.Samples) < 2 && k.Case != nil {
-		k.c.rep.Samples = append(k.c.rep.Samples, map[string]any{"index": k.Index, "case": jsonSafe(k.Case)})
-	}
-}
+func (k *K) Sample() { k.wantSample = true }
 
 func (k *K) Failed() bool { return k.failed }
 
